@@ -162,8 +162,8 @@ theorem restart_expiry_purges (p : Peer) (hwf : WF p) (he : p.est = false)
 /-- A failed connection attempt during the restart window (a transition to IDLE whose reason is
 neither the restart timer nor an administrative shutdown) leaves the retained routes alone. -/
 theorem failed_attempt_keeps_stale (p : Peer) (n : Next) (he : p.est = false) (hn : n ≠ .established) :
-    step p (.goto n false) = p := by
-  cases n <;> simp_all [step, onStateChange]
+    stepRaw p (.goto n false) = p := by
+  cases n <;> simp_all [stepRaw, onStateChange]
 
 /-! ## 4. after re-establishment: End-of-RIB -/
 
@@ -427,14 +427,14 @@ theorem deferral_on_timer (p : Peer) (dt : Nat) (he : p.est = true) (hd : p.down
 /-- No other event touches `LocalRestarting`: announcements, withdrawals, losses and FSM transitions
 below ESTABLISHED leave it as it is. -/
 theorem deferral_only_eor_or_timer (p : Peer) :
-    (∀ f k v n l, (step p (.ann f k v l n)).localRestarting = p.localRestarting) ∧
-    (∀ f k, (step p (.wd f k)).localRestarting = p.localRestarting) ∧
-    (∀ k, (step p (.loss k)).localRestarting = p.localRestarting) := by
+    (∀ f k v n l, (stepRaw p (.ann f k v l n)).localRestarting = p.localRestarting) ∧
+    (∀ f k, (stepRaw p (.wd f k)).localRestarting = p.localRestarting) ∧
+    (∀ k, (onLoss p k).localRestarting = p.localRestarting) := by
   refine ⟨?_, ?_, ?_⟩
-  · intro f k v n l; simp only [step, onAnnounce]; split <;> rfl
-  · intro f k; simp only [step, onWithdraw]; split <;> rfl
+  · intro f k v n l; simp only [stepRaw, onAnnounce]; split <;> rfl
+  · intro f k; simp only [stepRaw, onWithdraw]; split <;> rfl
   · intro k
-    simp only [step, onLoss, onDown]
+    simp only [onLoss, onDown]
     split
     · rfl
     · rename_i he
